@@ -20,7 +20,7 @@ for P in "$@"; do
   OUT=$(timeout 1800 bin/vcheck run "$P" --tier "${TIER:-quick}" --seed "${VERIF_SEED:-1}" 2>&1)
   RC=$?
   if [ $RC -eq 1 ] && echo "$OUT" | grep -q '^VIOLATION'; then
-    echo "CAUGHT by $P: $(echo "$OUT" | grep -c '^SIGNATURE') signature(s); first: $(echo "$OUT" | grep '^SIGNATURE' | head -1 | cut -c1-220)"
+    echo "CAUGHT by $P: hits=$(echo "$OUT" | grep -o '[0-9]* violation(s)' | head -1 | cut -d' ' -f1) in $(echo "$OUT" | grep -c '^SIGNATURE') signature(s); first: $(echo "$OUT" | grep '^SIGNATURE' | head -1 | cut -c1-220)"
   else
     echo "MISSED by $P (exit $RC): $(echo "$OUT" | grep -E "^$P |INCONCL" | cut -c1-200)"
   fi
